@@ -307,7 +307,7 @@ Proof.
       + unfold Inv. cbn [r_last r_first r_lcs]. rewrite U. splits; congruence.
     - cbn [negb andb]. destruct Ics as (Ig1 & Hl & Hfirst).
       destruct (r_first rs || negb (r_lcs rs =? cs)) eqn:S.
-      + assert (L2 : r_lcs rs =? 2 = false) by lia. rewrite L2. cbn [app].
+      + assert (L2 : r_lcs rs =? 2 = false) by (destruct Hl as [Hl|Hl]; rewrite Hl; reflexivity). rewrite L2. cbn [app].
         destruct Hcs as [-> | ->].
         * exists (set_so t1 false). cbn [cs_tok run fold_left step].
           assert (E0 : (0 =? 0) = true) by reflexivity. unfold cs_tok. rewrite E0. cbn [step].
@@ -321,7 +321,8 @@ Proof.
           -- unfold cur_cs. cbn. rewrite Hib1, Iibm, Hg11, Ig1. reflexivity.
           -- apply Inv_mk_narrow; cbn; auto; congruence.
       + exists t1. assert (Hf : r_first rs = false) by (destruct (r_first rs); [discriminate|reflexivity]).
-        assert (Hlcs : r_lcs rs = cs) by lia.
+        assert (Hlcs : r_lcs rs = cs).
+        { apply orb_false_elim in S as [_ S2]. apply negb_false_iff in S2. apply Z.eqb_eq in S2. exact S2. }
         splits; auto; try congruence.
         * unfold cur_cs. rewrite Hib1, Iibm, Hso1, (Hfirst Hf), Hg11, Ig1. rewrite Hlcs.
           destruct Hcs as [-> | ->]; reflexivity.
@@ -332,7 +333,7 @@ Proof.
   assert (Hcols2 : t_cols t2 = t_cols t) by (rewrite (SameFrame_cols _ _ _ HF2), (SameFrame_cols _ _ _ HF); reflexivity).
   destruct (print_ok text t0 t2 y P R HR2 HF2 Hy Hir2) as (R' & HR3 & HF3 & HM3).
   { eapply Forall_chr_ok_w12; eauto. }
-  { lia. }
+  { rewrite Hcols2. exact Hfit. }
   exists R'. rewrite Hcs2', Hat2 in HR3. split; [exact HR3|]. split; [exact HF3|]. split; [|reflexivity].
   destruct HM3 as (M1 & M2 & M3 & M4). destruct HI2 as (J1 & J2 & J3 & J4).
   unfold Inv. cbn [r_last r_first r_lcs] in *. rewrite M1, M2, M3, M4.
@@ -782,7 +783,7 @@ Proof.
     - exists t4. subst ycs. splits; auto using RowSt_set_attr, SameFrame_set_attr.
       unfold cur_cs. cbn. rewrite Hibm2, (Hso2 eq_refl). reflexivity.
     - destruct HI2 as (_ & _ & _ & HI2). rewrite U in HI2. destruct HI2 as (Hg1 & Hl & _).
-      assert (L2 : r_lcs rs2 =? 2 = false) by lia. rewrite L2. cbn [app].
+      assert (L2 : r_lcs rs2 =? 2 = false) by (destruct Hl as [Hl|Hl]; rewrite Hl; reflexivity). rewrite L2. cbn [app].
       destruct Hycs as [-> | ->].
       + exists (set_so t4 false). unfold cs_tok. change (0 =? 0) with true. cbn [run fold_left step].
         splits; auto using RowSt_set_so, RowSt_set_attr, SameFrame_set_so, SameFrame_set_attr; try discriminate.
@@ -870,24 +871,28 @@ Lemma position_ok c cols rows tb content y acc t :
   let t1 := run t (if negb (y =? 0) || false then set_cursor_position false (d_cy acc) 0 y else []) in
   (t1 = t \/ t1 = set_pos t 0 y false) /\ RowSt t1 y [] (get_row (t_grid t) y).
 Proof.
-  intros L Hy Hc Hrow. destruct L.
-  assert (Hr : get_row (t_grid t) y = get_row (t_grid tb) y) by (apply li_rest0; lia).
+  intros L Hy Hc Hrow t1. subst t1.
+  pose proof (li_rest _ _ _ _ _ _ _ _ L y (Z.le_refl y)) as Hr.
+  pose proof (li_cols _ _ _ _ _ _ _ _ L) as Hcols.
+  pose proof (li_rows _ _ _ _ _ _ _ _ L) as Hrows.
+  pose proof (li_home _ _ _ _ _ _ _ _ L) as Hhome.
+  clear L.
   destruct (y =? 0) eqn:E; cbn [negb orb].
-  - assert (y = 0) by lia. subst y. destruct (li_home0 eq_refl) as (Hx & Hy0 & Hp).
+  - assert (y = 0) by lia. subst y. destruct (Hhome eq_refl) as (Hx & Hy0 & Hp).
     cbn [run fold_left]. split; [left; reflexivity|].
-    unfold RowSt. rewrite zlen_nil. cbn [app]. splits; auto.
+    unfold RowSt. cbn [app]. change (zlen (@nil cell)) with 0. splits; auto.
     + rewrite Hr. lia.
     + constructor.
     + assert (E' : 0 <? t_cols t = true) by lia. rewrite E'. auto.
   - unfold set_cursor_position. cbn [negb run fold_left].
     rewrite cup_ok by lia. split; [right; reflexivity|].
-    unfold RowSt. cbn. rewrite zlen_nil. cbn [app]. splits; auto.
+    unfold RowSt. cbn. change (zlen (@nil cell)) with 0. splits; auto.
     + rewrite Hr. lia.
     + constructor.
     + assert (E' : 0 <? t_cols t = true) by lia. rewrite E'. auto.
 Qed.
 
-Lemma loop_next c cols rows tb content osb y row acc t t1 t2 rs2 out' (keep : Prop) :
+Lemma loop_next c cols rows tb content y row acc t t1 t2 rs2 out' (keep : Prop) :
   LoopInv c cols rows tb content y acc t -> 0 <= y < rows ->
   nthz content y = Some row ->
   (t1 = t \/ t1 = set_pos t 0 y false) ->
@@ -900,13 +905,457 @@ Proof.
   { destruct Ht1 as [-> | ->]; cbn; splits; reflexivity. }
   destruct G as (G1 & G2 & G3 & G4 & G5 & G6 & G7).
   destruct HF as (F1 & F2 & F3 & F4 & F5 & F6 & F7 & F8).
-  constructor; cbn [d_ru d_sb d_rs d_out d_cy]; try congruence.
+  constructor; cbn [d_ru d_sb d_rs d_out d_cy].
+  - reflexivity.
   - rewrite li_sb0. symmetry. apply takez_succ. exact Hrow.
-  - intros H. apply Hinv. apply Hkeep. lia.
+  - intros H. apply Hinv. apply Hkeep. exact H.
+  - exact Hibm.
+  - exact Hirm.
+  - exact Hso.
+  - rewrite F1, G2. exact li_cols0.
+  - rewrite F2, G3. exact li_rows0.
   - rewrite F3, G1. exact li_len0.
-  - intros H. lia.
+  - rewrite F5, G4. exact li_scr0.
+  - rewrite F6, G5. exact li_vis0.
+  - rewrite F7, G6. exact li_bce0.
+  - rewrite F8, G7. assumption.
+  - intros H. exfalso. clear -H Hy. lia.
   - intros y' row' Hy' Hn. destruct (Z.eq_dec y' y) as [->|Hne].
     + rewrite Hrow in Hn. inversion Hn; subst. exact Hshow.
-    + rewrite F4 by exact Hne. rewrite G1. apply li_done0; [lia|exact Hn].
-  - intros y' Hy'. rewrite F4 by lia. rewrite G1. apply li_rest0. lia.
+    + rewrite F4 by exact Hne. rewrite G1. apply li_done0; [clear -Hy' Hne; lia|exact Hn].
+  - intros y' Hy'. rewrite F4 by (clear -Hy'; lia). rewrite G1. apply li_rest0. clear -Hy'. lia.
+Qed.
+
+Lemma Inv_set_pos c rs t x y p : Inv c rs t -> Inv c rs (set_pos t x y p).
+Proof. unfold Inv. cbn. auto. Qed.
+
+Lemma row_ok_weak c cols row : row_ok c cols row -> Forall (run_ok' c) row.
+Proof. intros [H _]. eapply Forall_impl; [|exact H]. apply run_ok_weak. Qed.
+
+Lemma draw_row_ok c cols rows tb content osb y row acc t :
+  cfg_ok c -> 1 <= cols -> 0 <= y < rows ->
+  nthz content y = Some row -> row_ok c cols row ->
+  (g_bce c = true -> t_bce tb = true) ->
+  zlen (get_row (t_grid tb) y) = cols ->
+  (osb <> [] -> grid_shows c osb (t_grid tb)) ->
+  LoopInv c cols rows tb content y acc t ->
+  exists acc' toks, draw_row c cols rows osb y row acc = Ok acc' /\ d_out acc' = d_out acc ++ toks
+     /\ LoopInv c cols rows tb content (y + 1) acc' (run t toks).
+Proof.
+  intros Hc Hcols Hy Hnth Hrow Hbce Hlen Hosb L.
+  pose proof (li_ru _ _ _ _ _ _ _ _ L) as Hru.
+  unfold draw_row.
+  set (same := match osb with [] => false | _ => match nthz osb y with Some o => row_eqb o row | None => false end end).
+  destruct same eqn:Es.
+  - (* the row is already on the screen *)
+    assert (Ho : osb <> [] /\ nthz osb y = Some row).
+    { unfold same in Es. destruct osb as [|o0 osb']; [discriminate|]. split; [discriminate|].
+      destruct (nthz (o0 :: osb') y) as [o|]; [|discriminate]. apply row_eqb_eq in Es. subst o. reflexivity. }
+    destruct Ho as [Hne Ho]. destruct (Hosb Hne) as [_ Hshows].
+    exists (mkAcc (d_out acc) (d_sb acc ++ [row]) (d_cy acc) (d_rs acc) (d_ru acc)), [].
+    split; [reflexivity|]. split; [cbn; now rewrite app_nil_r|]. cbn [run fold_left].
+    destruct L. constructor; cbn [d_ru d_sb d_rs d_out d_cy]; auto.
+    + rewrite li_sb0. symmetry. apply takez_succ. exact Hnth.
+    + intros H. apply li_inv0. clear -H. lia.
+    + intros H. exfalso. clear -H Hy. lia.
+    + intros y' row' Hy' Hn. destruct (Z.eq_dec y' y) as [->|Hne'].
+      * rewrite Hnth in Hn. inversion Hn; subst. rewrite li_rest0 by apply Z.le_refl. apply Hshows. exact Ho.
+      * apply li_done0; [clear -Hy' Hne'; lia|exact Hn].
+    + intros y' Hy'. apply li_rest0. clear -Hy'. lia.
+  - (* the row is drawn *)
+    clear same Es. rewrite Hru. cbn [bind].
+    destruct (position_ok c cols rows tb content y acc t L Hy Hcols Hlen) as [Ht1 HR1].
+    set (t_pos := if negb (y =? 0) || false then set_cursor_position false (d_cy acc) 0 y else []) in *.
+    set (t1 := run t t_pos) in *.
+    assert (HI1 : Inv c (d_rs acc) t1).
+    { destruct Ht1 as [-> | ->]; [|apply Inv_set_pos]; apply (li_inv _ _ _ _ _ _ _ _ L); clear -Hy; lia. }
+    assert (Hcols1 : t_cols t1 = cols).
+    { destruct Ht1 as [-> | ->]; cbn; apply (li_cols _ _ _ _ _ _ _ _ L). }
+    assert (Hlen1 : zlen (t_grid t1) = rows).
+    { destruct Ht1 as [-> | ->]; cbn; apply (li_len _ _ _ _ _ _ _ _ L). }
+    assert (Hbce1 : g_bce c = true -> t_bce t1 = true).
+    { intros B. destruct Ht1 as [-> | ->]; cbn; rewrite (li_bce _ _ _ _ _ _ _ _ L); auto. }
+    assert (Hy1 : 0 <= y < zlen (t_grid t1)) by (rewrite Hlen1; exact Hy).
+    pose proof (row_ok_weak _ _ _ Hrow) as Hrow'. destruct Hrow as [Hruns Hwidth].
+    assert (Hw1 : row_width row = t_cols t1) by congruence.
+    assert (Hrne : row <> []).
+    { intros ->. change (row_width []) with 0 in Hwidth. clear -Hwidth Hcols. lia. }
+    assert (Hrok : row_ok c cols row) by (split; assumption).
+    destruct (snoc_cases row) as [->|(front & [[a cs] text] & ->)]; [congruence|].
+    rewrite last_opt_snoc, removelast_last.
+    destruct ((match last_opt text with Some ch => is_space ch | None => false end) && g_bce c && negb (using_sul c a)) eqn:Ews.
+    + (* trailing blanks erased *)
+      apply andb_prop in Ews as [Ews Esul]. apply andb_prop in Ews as [Esp Eb].
+      apply negb_true_iff in Esul. cbn [bind].
+      pose proof (row_ws_ok c (d_rs acc) front a cs text t1 t1 y (get_row (t_grid t) y) True Hc Hrow' HI1 HR1
+                    (SameFrame_refl _ _) Hy1 Hw1 Esp Esul (Hbce1 Eb)) as W.
+      match goal with |- context [emit_runs ?ea ?eb ?ec] =>
+        destruct (emit_runs ea eb ec) as [t_runs rs2] eqn:Er;
+        assert (E1 : t_runs = fst (emit_runs ea eb ec)) by (rewrite Er; reflexivity);
+        assert (E2 : rs2 = snd (emit_runs ea eb ec)) by (rewrite Er; reflexivity); clear Er end.
+      eexists. exists (t_pos ++ t_runs ++ [] ++ [TEl]). split; [reflexivity|]. split; [reflexivity|].
+      rewrite run_app. fold t1. cbn [app].
+      subst t_runs rs2. eapply loop_next with (t1 := t1) (keep := True); eauto.
+    + destruct ((y =? rows - 1) && (1 <? cols)) eqn:Elast.
+      * (* bottom row *)
+        apply andb_prop in Elast as [Ey Ec].
+        destruct (last_row_ok c cols _ Hrok Hrne) as
+          [(za & zcs & zc & Er1 & Elr) | (nr0 & ya & ycs & yc & za & zcs & zc & Elr & Hcells & Hnr & Hyr & Hwsum)].
+        -- rewrite Elr. cbn [bind].
+           pose proof (row_plain_ok c (d_rs acc) _ t1 t1 y (get_row (t_grid t) y) True Hc Hrow' HI1 HR1
+                         (SameFrame_refl _ _) Hy1 Hw1) as W.
+           match goal with |- context [emit_runs ?ea ?eb ?ec] =>
+             destruct (emit_runs ea eb ec) as [t_runs rs2] eqn:Er;
+             assert (E1 : t_runs = fst (emit_runs ea eb ec)) by (rewrite Er; reflexivity);
+             assert (E2 : rs2 = snd (emit_runs ea eb ec)) by (rewrite Er; reflexivity); clear Er end.
+           eexists. exists (t_pos ++ t_runs ++ [] ++ []). split; [reflexivity|]. split; [reflexivity|].
+           rewrite run_app. fold t1. cbn [app]. rewrite app_nil_r.
+           subst t_runs rs2. eapply loop_next with (t1 := t1) (keep := True); eauto.
+        -- rewrite Elr. cbn [bind].
+           assert (Hwsum' : row_width nr0 + snd yc + snd zc = t_cols t1) by congruence.
+           pose proof (row_trick_ok c (d_rs acc) nr0 ya ycs yc za zcs zc _ t1 t1 y (get_row (t_grid t) y) Hc Hnr Hyr Hcells
+                         Hwsum' HI1 HR1 (SameFrame_refl _ _) Hy1) as W.
+           match goal with |- context [emit_runs ?ea ?eb ?ec] =>
+             destruct (emit_runs ea eb ec) as [t_runs rs2] eqn:Er;
+             assert (E1 : t_runs = fst (emit_runs ea eb ec)) by (rewrite Er; reflexivity);
+             assert (E2 : rs2 = snd (emit_runs ea eb ec)) by (rewrite Er; reflexivity); clear Er end.
+           eexists. exists (t_pos ++ t_runs ++ emit_ins c rs2 (snd zc) (ya, ycs, [yc]) ++ []).
+           split; [reflexivity|]. split; [reflexivity|].
+           rewrite run_app. fold t1. rewrite app_nil_r.
+           subst t_runs rs2. eapply loop_next with (t1 := t1) (keep := False); eauto.
+           intros H. exfalso. clear -H Ey. lia.
+      * (* any other row, printed in full *)
+        cbn [bind].
+        pose proof (row_plain_ok c (d_rs acc) _ t1 t1 y (get_row (t_grid t) y) True Hc Hrow' HI1 HR1
+                      (SameFrame_refl _ _) Hy1 Hw1) as W.
+        match goal with |- context [emit_runs ?ea ?eb ?ec] =>
+          destruct (emit_runs ea eb ec) as [t_runs rs2] eqn:Er;
+          assert (E1 : t_runs = fst (emit_runs ea eb ec)) by (rewrite Er; reflexivity);
+          assert (E2 : rs2 = snd (emit_runs ea eb ec)) by (rewrite Er; reflexivity); clear Er end.
+        eexists. exists (t_pos ++ t_runs ++ [] ++ []). split; [reflexivity|]. split; [reflexivity|].
+        rewrite run_app. fold t1. cbn [app]. rewrite app_nil_r.
+        subst t_runs rs2. eapply loop_next with (t1 := t1) (keep := True); eauto.
+Qed.
+
+Lemma dropz_cons_nth {A} (l : list A) y r rest : 0 <= y -> dropz y l = r :: rest -> nthz l y = Some r /\ dropz (y + 1) l = rest.
+Proof.
+  intros Hy H. unfold dropz, nthz in *. destruct (y <? 0) eqn:E; [lia|].
+  replace (Z.to_nat (y + 1)) with (S (Z.to_nat y)) by lia.
+  revert l H. generalize (Z.to_nat y) as n. induction n as [|n IH]; intros l H.
+  - cbn [skipn] in H. subst l. split; reflexivity.
+  - destruct l as [|a l]; [discriminate|]. cbn [skipn nth_error] in *. apply IH. exact H.
+Qed.
+
+Lemma Forall_get_row (P : list cell -> Prop) g y : Forall P g -> 0 <= y < zlen g -> P (get_row g y).
+Proof.
+  intros H Hy. destruct (nthz_range g y Hy) as [r Hr]. unfold get_row. rewrite Hr.
+  rewrite Forall_forall in H. apply H. unfold nthz in Hr. destruct (y <? 0); [discriminate|].
+  eapply nth_error_In; eauto.
+Qed.
+
+Lemma Forall_nthz {A} (P : A -> Prop) l y x : Forall P l -> nthz l y = Some x -> P x.
+Proof.
+  intros H Hn. rewrite Forall_forall in H. apply H. unfold nthz in Hn. destruct (y <? 0); [discriminate|].
+  eapply nth_error_In; eauto.
+Qed.
+
+Lemma draw_rows_ok c cols rows tb content osb : forall rest y acc t,
+  cfg_ok c -> 1 <= cols -> 0 <= y -> y + zlen rest = rows -> dropz y content = rest ->
+  Forall (row_ok c cols) content ->
+  (g_bce c = true -> t_bce tb = true) ->
+  Forall (fun r => zlen r = cols) (t_grid tb) -> zlen (t_grid tb) = rows ->
+  (osb <> [] -> grid_shows c osb (t_grid tb)) ->
+  LoopInv c cols rows tb content y acc t ->
+  exists acc' toks, draw_rows c cols rows osb y rest acc = Ok acc' /\ d_out acc' = d_out acc ++ toks
+     /\ LoopInv c cols rows tb content rows acc' (run t toks).
+Proof.
+  induction rest as [|r rest IH]; intros y acc t Hc Hcols Hy Hsum Hdrop Hcontent Hbce Hgrid Hglen Hosb L.
+  - exists acc, []. rewrite zlen_nil in Hsum. assert (y = rows) by lia. subst y.
+    split; [reflexivity|]. split; [now rewrite app_nil_r|]. exact L.
+  - rewrite zlen_cons in Hsum. pose proof (zlen_nonneg rest) as Hnn.
+    destruct (dropz_cons_nth content y r rest Hy Hdrop) as [Hnth Hdrop'].
+    assert (Hyr : 0 <= y < rows) by lia.
+    assert (Hrow : row_ok c cols r) by (eapply Forall_nthz; eauto).
+    assert (Hlen : zlen (get_row (t_grid tb) y) = cols).
+    { apply (Forall_get_row (fun r => zlen r = cols)); [exact Hgrid|lia]. }
+    destruct (draw_row_ok c cols rows tb content osb y r acc t Hc Hcols Hyr Hnth Hrow Hbce Hlen Hosb L)
+      as (acc1 & toks1 & E1 & O1 & L1).
+    destruct (IH (y + 1) acc1 (run t toks1)) as (acc2 & toks2 & E2 & O2 & L2); auto; try lia.
+    exists acc2, (toks1 ++ toks2). cbn [draw_rows]. rewrite E1. cbn [bind]. split; [exact E2|]. split.
+    + rewrite O2, O1, app_assoc. reflexivity.
+    + rewrite run_app. exact L2.
+Qed.
+
+(* ================= 8. one frame ================= *)
+Lemma Forall2_zlen {A B} (R : A -> B -> Prop) a b : Forall2 R a b -> zlen a = zlen b.
+Proof. induction 1; [reflexivity|]. rewrite !zlen_cons. lia. Qed.
+
+Lemma Forall_from_rows (P : list cell -> Prop) g : (forall y, 0 <= y < zlen g -> P (get_row g y)) -> Forall P g.
+Proof.
+  induction g as [|r g IH]; intros H; [constructor|]. constructor.
+  - specialize (H 0). rewrite zlen_cons in H. pose proof (zlen_nonneg g). apply H. lia.
+  - apply IH. intros y Hy. specialize (H (y + 1)). rewrite zlen_cons in H.
+    assert (E : get_row (r :: g) (y + 1) = get_row g y).
+    { unfold get_row, nthz. destruct (y + 1 <? 0) eqn:E1; [lia|]. destruct (y <? 0) eqn:E2; [lia|].
+      replace (Z.to_nat (y + 1)) with (S (Z.to_nat y)) by lia. reflexivity. }
+    rewrite <- E. apply H. lia.
+Qed.
+
+Lemma takez_full {A} (l : list A) : takez (zlen l) l = l.
+Proof. apply takez_all. lia. Qed.
+
+Theorem draw_paints_lemma c s t cols rows content cursor :
+  cfg_ok c -> Sync c s t -> t_cols t = cols -> t_rows t = rows ->
+  canvas_ok c cols rows content -> cursor_ok cols rows cursor ->
+  exists toks s', draw_screen c s cols rows content cursor false = Ok (toks, s')
+     /\ Paints c (run t toks) content cursor /\ Sync c s' (run t toks) /\ s_buf s' = content
+     /\ t_cols (run t toks) = cols /\ t_rows (run t toks) = rows.
+Proof.
+  intros Hc (Sru & Sres & (T1 & T2 & T3 & T4) & Sirm & Sscr & Sibm & Sso & Sg1 & Sbce & Sbuf) Hcols Hrows [Clen Crows] Hcur.
+  unfold draw_screen.
+  assert (E1 : negb (rows =? zlen content) = false) by (rewrite Clen; clear; lia). rewrite E1.
+  rewrite andb_false_r. rewrite Sres, Sru.
+  set (t_g1' := if s_g1 s then [] else [TG1]).
+  set (out0 := [THide] ++ attr_to_escape c 0 ++ [THome] ++ set_cursor_home false (s_cy s)).
+  set (ta := run t t_g1').
+  assert (Hta : ta = t \/ ta = set_g1 t true).
+  { unfold ta, t_g1'. destruct (s_g1 s); [left|right]; reflexivity. }
+  assert (Hg1a : t_g1 ta = true).
+  { unfold ta, t_g1'. destruct (s_g1 s) eqn:G; [apply Sg1; reflexivity|reflexivity]. }
+  set (tb := run ta out0).
+  assert (Htb : tb = set_pos (set_attr (set_visible ta false) (attr_vis c 0)) 0 0 false).
+  { unfold tb, out0. rewrite !run_app. cbn [run fold_left step]. rewrite attr_escape_run by exact Hc.
+    unfold set_cursor_home. cbn [negb run fold_left].
+    assert (Ecup : step (set_pos (set_attr (set_visible ta false) (attr_vis c 0)) 0 0 false) (TCup (0 + 1) (0 + 1))
+                   = set_pos (set_pos (set_attr (set_visible ta false) (attr_vis c 0)) 0 0 false) 0 0 false).
+    { apply cup_ok; cbn; destruct Hta as [-> | ->]; cbn; clear -T1 T2; lia. }
+    change (TCup 1 1) with (TCup (0 + 1) (0 + 1)). cbn [fold_left]. rewrite Ecup. reflexivity. }
+  assert (Gb : t_grid tb = t_grid t /\ t_cols tb = cols /\ t_rows tb = rows /\ t_scrolled tb = false /\ t_visible tb = false
+               /\ t_bce tb = t_bce t /\ t_g1 tb = true /\ t_ibm tb = false /\ t_irm tb = false /\ t_so tb = t_so t
+               /\ t_attr tb = attr_vis c 0 /\ t_x tb = 0 /\ t_y tb = 0 /\ t_pending tb = false).
+  { rewrite Htb. destruct Hta as [Ea | Ea]; rewrite Ea in *; cbn in *; splits; auto. }
+  destruct Gb as (B1 & B2 & B3 & B4 & B5 & B6 & B7 & B8 & B9 & B10 & B11 & B12 & B13 & B14).
+  (* the loop *)
+  set (acc0 := mkAcc out0 [] 0 (mkRs 0 true 0) None).
+  assert (L0 : LoopInv c cols rows tb content 0 acc0 tb).
+  { constructor; cbn [d_ru d_sb d_rs d_out d_cy acc0]; auto.
+    - intros _. unfold Inv. cbn [r_last r_first r_lcs]. splits; auto.
+      destruct (g_utf8 c) eqn:U.
+      + rewrite B10. apply Sso. reflexivity.
+      + splits; auto. discriminate.
+    - intros U. rewrite B10. apply Sso. exact U.
+    - rewrite B1, T3. exact Hrows.
+    - intros y' row' H. exfalso. clear -H. lia. }
+  assert (A1 : 1 <= cols) by (rewrite <- Hcols; exact T1).
+  assert (A2 : 0 + zlen content = rows) by (rewrite Clen; clear; lia).
+  assert (A3 : g_bce c = true -> t_bce tb = true) by (intros B; rewrite B6; apply Sbce; exact B).
+  assert (A4 : Forall (fun r => zlen r = cols) (t_grid tb)) by (rewrite B1, <- Hcols; exact T4).
+  assert (A5 : zlen (t_grid tb) = rows) by (rewrite B1, T3; exact Hrows).
+  assert (A6 : s_buf s <> [] -> grid_shows c (s_buf s) (t_grid tb)) by (intros H; rewrite B1; apply Sbuf; exact H).
+  destruct (draw_rows_ok c cols rows tb content (s_buf s) content 0 acc0 tb Hc A1 (Z.le_refl 0) A2 eq_refl Crows A3 A4 A5 A6 L0)
+    as (acc' & ltoks & Ed & Od & L).
+  fold acc0. rewrite Ed. cbn [bind].
+  set (tl := run tb ltoks) in *.
+  pose proof (li_g1 _ _ _ _ _ _ _ _ L) as Lg1.
+  pose proof L as L'. destruct L'.
+  assert (Hshows : grid_shows c content (t_grid tl)).
+  { split; [rewrite li_len0; symmetry; exact Clen|].
+    intros y row Hn. apply li_done0; [|exact Hn]. apply nthz_split in Hn as [_ Hn]. rewrite Clen in Hn. exact Hn. }
+  assert (Hsb : d_sb acc' = content) by (rewrite li_sb0, <- Clen; apply takez_full).
+  assert (Hrowlen : Forall (fun r => zlen r = cols) (t_grid tl)).
+  { apply Forall_from_rows. intros y Hy. rewrite li_len0 in Hy.
+    assert (Hyc : 0 <= y < zlen content) by (rewrite Clen; exact Hy).
+    destruct (nthz_range content y Hyc) as [row Hn].
+    pose proof (li_done0 y row Hy Hn) as Hs. unfold row_shows in Hs. apply Forall2_zlen in Hs. rewrite <- Hs.
+    pose proof (Forall_nthz _ _ _ _ Crows Hn) as Hrok.
+    rewrite zlen_row_cells by (eapply row_ok_weak; eauto). destruct Hrok as [_ Hw]. exact Hw. }
+  destruct cursor as [[cx cy]|].
+  - (* cursor shown *)
+    destruct Hcur as [Hcx Hcy].
+    eexists. eexists. split; [reflexivity|].
+    rewrite Od. cbn [d_out acc0]. rewrite !run_app. fold ta. fold tb. fold tl.
+    unfold set_cursor_position. cbn [negb run fold_left].
+    rewrite cup_ok by (rewrite ?li_cols0, ?li_rows0; assumption). cbn [step].
+    split; [|split].
+    + split; [exact Hshows|]. split; [cbn; splits; reflexivity|]. cbn. rewrite li_scr0. exact B4.
+    + unfold Sync. cbn. splits; auto.
+      * unfold term_ok. cbn. rewrite li_cols0, li_rows0, li_len0. splits; auto; congruence.
+      * rewrite li_scr0. exact B4.
+      * intros _. rewrite Lg1. exact B7.
+      * intros B. rewrite li_bce0, B6. apply Sbce. exact B.
+      * intros _. rewrite Hsb. exact Hshows.
+    + cbn. splits; auto.
+  - (* cursor hidden *)
+    eexists. eexists. split; [reflexivity|].
+    rewrite Od. cbn [d_out acc0]. rewrite !run_app. fold ta. fold tb. fold tl. cbn [run fold_left].
+    split; [|split].
+    + split; [exact Hshows|]. split; [cbn; rewrite li_vis0; exact B5|]. rewrite li_scr0. exact B4.
+    + unfold Sync. cbn. splits; auto.
+      * unfold term_ok. cbn. rewrite li_cols0, li_rows0, li_len0. splits; auto; congruence.
+      * rewrite li_scr0. exact B4.
+      * intros _. rewrite Lg1. exact B7.
+      * intros B. rewrite li_bce0, B6. apply Sbce. exact B.
+      * intros _. rewrite Hsb. exact Hshows.
+    + cbn. splits; auto.
+Qed.
+
+(* ================= 9. histories ================= *)
+Lemma sync_start c t : term_start_ok c t -> Sync c (init_scr false) t.
+Proof.
+  intros (H1 & H2 & H3 & H4 & H5 & H6). unfold Sync. cbn. splits; auto; try discriminate; try congruence.
+Qed.
+
+Lemma sync_clear c s t t' : Sync c s t -> same_but_cells t t' -> Sync c (clear s) t'.
+Proof.
+  intros (Sru & Sres & (T1 & T2 & T3 & T4) & Sirm & Sscr & Sibm & Sso & Sg1 & Sbce & Sbuf)
+         (C1 & C2 & C3 & C4 & C5 & C6 & C7 & C8 & C9 & C10).
+  unfold Sync. cbn. splits; auto; try congruence.
+  - unfold term_ok. rewrite C1, C2. splits; auto; try congruence.
+  - intros U. rewrite C6. auto.
+  - intros G. rewrite C8. auto.
+  - intros B. rewrite C10. auto.
+Qed.
+
+Lemma sync_resize c s t t' : Sync c s t -> resized_from t t' -> Sync c (ack (winch s)) t'.
+Proof.
+  intros (Sru & Sres & _ & Sirm & Sscr & Sibm & Sso & Sg1 & Sbce & Sbuf) (C1 & C2 & C3 & C4 & C5 & C6 & C7).
+  unfold Sync. cbn. splits; auto; try congruence.
+  - intros U. rewrite C3. auto.
+  - intros G. rewrite C5. auto.
+  - intros B. rewrite C7. auto.
+Qed.
+
+(* the same canvas object while the screen buffer is valid: nothing is written *)
+Lemma draw_same_noop c s cols rows content cursor :
+  s_buf s <> [] -> rows = zlen content -> draw_screen c s cols rows content cursor true = Ok ([], s).
+Proof.
+  intros Hb Hr. unfold draw_screen. assert (E : negb (rows =? zlen content) = false) by lia. rewrite E.
+  destruct (s_buf s); [congruence|]. reflexivity.
+Qed.
+
+Lemma draw_same_fresh c s cols rows content cursor :
+  s_buf s = [] -> draw_screen c s cols rows content cursor true = draw_screen c s cols rows content cursor false.
+Proof. intros Hb. unfold draw_screen. rewrite Hb. reflexivity. Qed.
+
+Definition RInv (c : cfg) (s : scr) (t : term) (last : option canvas) (shown : bool) : Prop :=
+  Sync c s t /\
+  (forall content cursor, last = Some (content, cursor) ->
+     canvas_ok c (t_cols t) (t_rows t) content /\ cursor_ok (t_cols t) (t_rows t) cursor) /\
+  (s_buf s <> [] \/ shown = true ->
+     exists content cursor, last = Some (content, cursor) /\ Paints c t content cursor).
+
+Lemma reach_inv c s t last shown : cfg_ok c -> Reach c s t last shown -> RInv c s t last shown.
+Proof.
+  intros Hc R. induction R as
+    [t Hs | s t last shown content cursor toks s' R IH Hcan Hcur Hd | s t shown content cursor toks s' R IH Hd
+     | s t last shown t' R IH Hsb | s t last shown t' R IH Hrs].
+  - split; [apply sync_start; exact Hs|]. split; [intros; discriminate|].
+    intros [H|H]; [cbn in H; congruence|discriminate].
+  - destruct IH as (HS & _ & _).
+    destruct (draw_paints_lemma c s t _ _ content cursor Hc HS eq_refl eq_refl Hcan Hcur)
+      as (toks0 & s0 & E & HP & HS' & Hb & Hc1 & Hr1).
+    rewrite E in Hd. inversion Hd; subst toks0 s0.
+    split; [exact HS'|]. split.
+    + intros c0 cur0 H. inversion H; subst. rewrite Hc1, Hr1. split; assumption.
+    + intros _. exists content, cursor. split; [reflexivity|exact HP].
+  - destruct IH as (HS & Hlast & Hshown). destruct (Hlast content cursor eq_refl) as [Hcan Hcur].
+    destruct (s_buf s) as [|r0 b0] eqn:Eb.
+    + rewrite draw_same_fresh in Hd by exact Eb.
+      destruct (draw_paints_lemma c s t _ _ content cursor Hc HS eq_refl eq_refl Hcan Hcur)
+        as (toks0 & s0 & E & HP & HS' & Hb & Hc1 & Hr1).
+      rewrite E in Hd. inversion Hd; subst toks0 s0.
+      split; [exact HS'|]. split.
+      * intros c0 cur0 H. inversion H; subst. rewrite Hc1, Hr1. split; assumption.
+      * intros _. exists content, cursor. split; [reflexivity|exact HP].
+    + rewrite draw_same_noop in Hd.
+      2:{ rewrite Eb. discriminate. }
+      2:{ destruct Hcan as [Hl _]. symmetry. exact Hl. }
+      inversion Hd; subst toks s'. cbn [run fold_left].
+      split; [exact HS|]. split; [exact Hlast|].
+      intros _. destruct Hshown as (c0 & cur0 & E0 & HP); [left; discriminate|].
+      inversion E0; subst. exists c0, cur0. split; [reflexivity|exact HP].
+  - destruct IH as (HS & Hlast & _). split; [eapply sync_clear; eauto|]. split.
+    + destruct Hsb as (C1 & C2 & _). rewrite C1, C2. exact Hlast.
+    + intros [H|H]; [cbn in H; congruence|discriminate].
+  - destruct IH as (HS & _ & _). split; [eapply sync_resize; eauto|]. split; [intros; discriminate|].
+    intros [H|H]; [cbn in H; congruence|discriminate].
+Qed.
+
+(* after any history of draws, forced clears and size changes ending with a draw, the terminal
+   paints the canvas drawn last; the Screen object and the terminal stay in sync *)
+Theorem history_paints_lemma c s t last :
+  cfg_ok c -> Reach c s t last true ->
+  exists content cursor, last = Some (content, cursor) /\ Paints c t content cursor.
+Proof. intros Hc R. destruct (reach_inv c s t last true Hc R) as (_ & _ & H). apply H. right. reflexivity. Qed.
+
+Theorem reach_sync_lemma c s t last shown : cfg_ok c -> Reach c s t last shown -> Sync c s t.
+Proof. intros Hc R. apply (reach_inv c s t last shown Hc R). Qed.
+
+(* an incremental redraw and a forced full repaint of the same canvas (on a terminal holding anything)
+   both paint the canvas: same cells up to visual equality, same cursor, neither scrolls *)
+Theorem incremental_eq_full_lemma c s t t_any content cursor :
+  cfg_ok c -> Sync c s t -> same_but_cells t t_any ->
+  canvas_ok c (t_cols t) (t_rows t) content -> cursor_ok (t_cols t) (t_rows t) cursor ->
+  exists toks s1 toks_full s2,
+    draw_screen c s (t_cols t) (t_rows t) content cursor false = Ok (toks, s1) /\
+    draw_screen c (clear s) (t_cols t) (t_rows t) content cursor false = Ok (toks_full, s2) /\
+    Paints c (run t toks) content cursor /\ Paints c (run t_any toks_full) content cursor /\
+    s_buf s1 = s_buf s2.
+Proof.
+  intros Hc HS Hsb Hcan Hcur.
+  destruct (draw_paints_lemma c s t _ _ content cursor Hc HS eq_refl eq_refl Hcan Hcur)
+    as (toks & s1 & E1 & HP1 & _ & Hb1 & _).
+  pose proof (sync_clear c s t t_any HS Hsb) as HS2.
+  pose proof Hsb as (C1 & C2 & _).
+  destruct (draw_paints_lemma c (clear s) t_any _ _ content cursor Hc HS2 C1 C2 Hcan Hcur)
+    as (toks2 & s2 & E2 & HP2 & _ & Hb2 & _).
+  exists toks, s1, toks2, s2. splits; auto. congruence.
+Qed.
+
+(* ================= 10. what is false of the code as it is: witnesses ================= *)
+Definition w_cfg : cfg := mkCfg false true false false [(0, default_spec)].
+
+Lemma w_cfg_ok : cfg_ok w_cfg.
+Proof. unfold cfg_ok, w_cfg. cbn. constructor; [apply default_spec_ok|constructor]. Qed.
+
+(* IBMPC leak: 2x1 screen; frame 1 = "a " in charset U (the blank is erased, SGR 11 stays selected);
+   frame 2 = "b " in the default charset is painted in the IBMPC charset *)
+Definition leak_f1 : canvas := ([[(0, 2, [(97, 1); (32, 1)])]], None).
+Definition leak_f2 : canvas := ([[(0, 0, [(98, 1); (32, 1)])]], None).
+
+Lemma charset_u_refuted_lemma : ~ draw_paints_charset_u_full.
+Proof.
+  intros H.
+  destruct (run_draws w_cfg (init_scr false) (new_term 2 1) ([leak_f1] ++ [leak_f2])) as [[s t]|] eqn:E;
+    [|vm_compute in E; discriminate].
+  assert (Hok : Forall (fun f : canvas => canvas_ok_u w_cfg 2 1 (fst f) /\ cursor_ok 2 1 (snd f)) ([leak_f1] ++ [leak_f2])).
+  { unfold canvas_ok_u, run_ok_u, chr_ok, cursor_ok. cbn.
+    repeat first [apply Forall_nil | apply Forall_cons | split | discriminate | lia | exact I | (left; reflexivity)]. }
+  specialize (H w_cfg 2 1 [leak_f1] (fst leak_f2) (snd leak_f2) s t w_cfg_ok ltac:(lia) ltac:(lia) Hok E).
+  vm_compute in E. inversion E; subst s t. clear E.
+  destruct H as ((_ & Hg) & _).
+  specialize (Hg 0 _ eq_refl). unfold row_shows in Hg. vm_compute in Hg.
+  inversion Hg as [|e g l1 l2 Hv _]; subst. vm_compute in Hv.
+  destruct Hv as (_ & _ & _ & Hcs). discriminate.
+Qed.
+
+(* partial display: 1x2 screen; frame 1 paints "a","b" without a cursor (the terminal cursor stays on
+   row 1, self._cy stays 0); frame 2 changes row 0 to "c" and paints it on row 1 *)
+Definition part_f1 : canvas := ([[(0, 0, [(97, 1)])]; [(0, 0, [(98, 1)])]], None).
+Definition part_f2 : canvas := ([[(0, 0, [(99, 1)])]; [(0, 0, [(98, 1)])]], None).
+
+Lemma partial_refuted_lemma : ~ draw_paints_partial_full.
+Proof.
+  intros H.
+  destruct (run_draws w_cfg (init_scr true) (new_term 1 2) ([part_f1] ++ [part_f2])) as [[s t]|] eqn:E;
+    [|vm_compute in E; discriminate].
+  assert (Hok : Forall (fun f : canvas => canvas_ok w_cfg 1 2 (fst f) /\ cursor_ok 1 2 (snd f)) ([part_f1] ++ [part_f2])).
+  { unfold canvas_ok, row_ok, run_ok, chr_ok, cursor_ok. cbn.
+    repeat first [apply Forall_nil | apply Forall_cons | split | discriminate | lia | exact I | (left; reflexivity)]. }
+  specialize (H w_cfg 1 2 [part_f1] (fst part_f2) (snd part_f2) s t w_cfg_ok ltac:(lia) ltac:(lia) Hok E).
+  vm_compute in E. inversion E; subst s t. clear E.
+  destruct H as (Hg & _).
+  specialize (Hg 0 _ 1 eq_refl ltac:(lia) eq_refl). unfold row_shows in Hg. vm_compute in Hg.
+  inversion Hg as [|e g l1 l2 Hv _]; subst. vm_compute in Hv.
+  destruct Hv as (Hcp & _). discriminate.
 Qed.
